@@ -24,7 +24,8 @@ EXTENDS Naturals, Sequences, FiniteSets, TLC
 
 CONSTANTS R,        \* number of input rows (ids 1..R)
           N,        \* number of workers
-          Sel       \* set of selected row ids (the predicate pattern)
+          Sel,      \* set of selected row ids (the predicate pattern)
+          Fail      \* selected rows on which row_func raises: the worker reports it and STILL delivers the row (unchanged)
 W == 1..N
 NONE == 0           \* end marker
 
@@ -81,7 +82,7 @@ WGet(w) == /\ wst[w] = "get" /\ qin # <<>>
            /\ qin' = Tail(qin) /\ wrow' = [wrow EXCEPT ![w] = Head(qin)]
            /\ IF Head(qin) = NONE THEN /\ wst' = [wst EXCEPT ![w] = "exit"] /\ UNCHANGED applied
                                   ELSE /\ wst' = [wst EXCEPT ![w] = "put"]            \* row_func runs right after the get
-                                       /\ applied' = [applied EXCEPT ![Head(qin)] = @ + 1]
+                                       /\ applied' = IF Head(qin) \in Fail THEN applied ELSE [applied EXCEPT ![Head(qin)] = @ + 1]
            /\ UNCHANGED <<nextIn, cphase, jw, pphase, pmark, pbuf, obuf, qout, fst, frow, fexp, qint, delivered>>
 WPut(w) == /\ wst[w] = "put" /\ obuf' = [obuf EXCEPT ![w] = Append(@, wrow[w])]
            /\ wst' = [wst EXCEPT ![w] = "get"] /\ wrow' = [wrow EXCEPT ![w] = 0]
@@ -131,10 +132,10 @@ SeqToSet(s) == {s[i] : i \in 1..Len(s)}
 NoDup == \A i, j \in 1..Len(delivered) : i # j => delivered[i] # delivered[j]
 \* every row delivered exactly once; row_func applied exactly once to selected rows, never to the others
 ExactlyOnce == cphase = "done" => /\ SeqToSet(delivered) = 1..R /\ Len(delivered) = R
-                                  /\ \A r \in 1..R : applied[r] = IF r \in Sel THEN 1 ELSE 0
+                                  /\ \A r \in 1..R : applied[r] = IF r \in Sel \ Fail THEN 1 ELSE 0
 AtMostOnce == NoDup /\ \A r \in 1..R : applied[r] <= 1
 \* a selected row is delivered only after row_func has been applied to it
-AppliedBeforeDelivered == \A i \in 1..Len(delivered) : delivered[i] \in Sel => applied[delivered[i]] = 1
+AppliedBeforeDelivered == \A i \in 1..Len(delivered) : delivered[i] \in Sel \ Fail => applied[delivered[i]] = 1
 \* nothing is left in any queue or buffer at the end
 Quiescent == cphase = "done" => /\ qin = <<>> /\ qout = <<>> /\ qint = <<>> /\ pbuf = <<>> /\ \A w \in W : obuf[w] = <<>>
 \* the end-of-stream marker reaches the collector only after every row (action property)
